@@ -82,6 +82,7 @@ let components : (string * (string list * (unit -> z -> tok list -> tok list))) 
   ("rt", (["new"; "parse"; "set"; "opt"], mk None rt_step));
   ("dns", (["new"; "parse"; "addq"; "adda"; "addn"; "addr"], mk None dns_step));
   ("sum", (["sum"], mk () sum_step));
+  ("tcpo", (["tcpo"], mk () tcpo_step));
   ("ipr", (["pkt"], mk [] ipr_step));
   ("ack", (["new"; "pkt"; "q"], mk (ack_new Z0 false) ack_step));
 ]
